@@ -591,6 +591,23 @@ pub trait LogSpecSubscriber: 'static + Send {
     /// # Errors
     fn initial_spec(&self) -> Result<LogSpecification, FlexiLoggerError>;
 }
+// Verification hook: exactly what the specfile watcher thread does when the file has changed
+// (it owns a clone of the WritersHandle and calls the subscriber method on it).
+#[cfg(all(flexi_logger_verif, feature = "specfile_without_notification"))]
+impl LoggerHandle {
+    #[doc(hidden)]
+    pub fn verif_subscriber_set_new_spec(
+        &self,
+        new_spec: LogSpecification,
+    ) -> Result<(), FlexiLoggerError> {
+        let mut subscriber = self.writers_handle.clone();
+        let result = LogSpecSubscriber::set_new_spec(&mut subscriber, new_spec);
+        // the watcher keeps its clone for the life time of the logger
+        std::mem::forget(subscriber);
+        result
+    }
+}
+
 #[cfg(feature = "specfile_without_notification")]
 impl LogSpecSubscriber for WritersHandle {
     fn set_new_spec(&mut self, new_spec: LogSpecification) -> Result<(), FlexiLoggerError> {
